@@ -18,6 +18,7 @@ FAMILIES = {
     "save": "harness.check_save",
     "formats": "harness.check_formats",
     "loader": "harness.check_loader",
+    "rdf": "harness.check_rdf",
 }
 # property -> families whose judges print verdicts for it
 PROPS = {
@@ -31,6 +32,7 @@ PROPS = {
     "C19": ["registry"],
     "C07": ["save"],
     "C18": ["loader"],
+    "C10": ["rdf"],
     "C01": ["formats"], "C02": ["formats"],
 }
 EXPLAIN = {}
